@@ -118,6 +118,38 @@ def scope_filter(ctx: Ctx, rule: str) -> None:
                "" if ok else f"the four pool operations no longer filter sources identically: { {k: norm.show(v) if v else None for k, v in filters.items()} }")
 
 
+def partial_presence(ctx: Ctx, rule: str) -> None:
+    """show() reports a state that is in the cache OR in a permitted pool, so the state a removal is asked for may be missing from either
+    side: the local removal is conditional on the local presence, and deleting from a pool tolerates a missing file (otherwise the
+    removal raises half way: the mirrors after the failing one are never reached)."""
+    fref = f"{SSB}.unset"
+    views = function_views(ctx, fref, names_interesting({"_unset", "_show", "scopes"}))
+    guard_rule(ctx, rule, fref, views, is_call_named("_unset"),
+               lambda v, i, c: expr_formula(v, i, "params['unset_state'] in cls._show(params, object)"),
+               min_sites=1, missing_is_violation=True, what="local cls._unset call",
+               describe_required="the state is among the local states (it may be listed because a pool has it)")
+    OPS = f"{POOL}:TransferOps"
+    f2 = f"{OPS}.delete_local"
+    views2 = function_views(ctx, f2, names_interesting({"unlink", "exists", "lexists", "image_lock"}))
+    fn2 = ctx.repo.func(f2)
+    tolerant = any(isinstance(t, ast.Try) and any(h.type is not None and "FileNotFoundError" in ast.unparse(h.type) for h in t.handlers)
+                   and any(call_name(c) == "unlink" for c in calls_in(t)) for t in ast.walk(fn2.node))
+    if tolerant:
+        ctx.record(rule + "d", "GUARD", f2, "os.unlink(pool_path) tolerates a missing file", True, {}, "")
+    else:
+        guard_rule(ctx, rule + "d", f2, views2, lambda c: call_name(c) in ("unlink", "remove"),
+                   lambda v, i, c: norm.disj([expr_formula(v, i, "os.path.exists(pool_path)"), expr_formula(v, i, "os.path.lexists(pool_path)")]),
+                   min_sites=1, missing_is_violation=True, what="os.unlink of the pool file",
+                   describe_required="the pool file exists (a state listed from the cache alone has no pool file; the lock must not be created for it either)")
+    f3 = f"{OPS}.delete_remote"
+    fn3 = ctx.repo.func(f3)
+    ctx.touch(f3)
+    cmds = [ast.unparse(c.args[0]) for c in calls_in(fn3.node) if call_name(c) == "cmd" and c.args]
+    ok3 = len(cmds) == 1 and ("rm -f " in cmds[0] or "test -e" in cmds[0] or "[ -e" in cmds[0])
+    ctx.record(rule + "r", "GUARD", f3, "the remote removal tolerates a missing file (rm -f)", ok3, {"commands": cmds},
+               "" if ok3 else f"deleting from a remote pool fails for a state the pool does not hold: {cmds}")
+
+
 def local_ops(ctx: Ctx, rule: str) -> None:
     for op in ("get", "set", "unset"):
         fref = f"{SSB}.{op}"
@@ -448,6 +480,33 @@ def root_scope_table(ctx: Ctx, rule: str) -> None:
                {"paths": n}, "" if not problems and n >= 3 else (problems[0][0] if problems else "unexpected shape of get_root"))
 
 
+def vm_root_local(ctx: Ctx, rule: str) -> None:
+    """check_root says so itself: the root of a vm (its boot state) cannot be handled remotely, a pool copy does not count for vm object
+    types.  get_root must agree: nothing is downloaded over the images of a (running) vm."""
+    fc = ctx.repo.func(f"{RSB}.check_root")
+    ctx.touch(fc.ref)
+    lists = [c for c in ast.walk(fc.node) if isinstance(c, ast.Compare) and "object_type" in ast.unparse(c.left) and isinstance(c.ops[0], (ast.In, ast.NotIn))
+             and isinstance(c.comparators[0], (ast.List, ast.Tuple, ast.Set))]
+    types = sorted(e.value for c in lists for e in c.comparators[0].elts if isinstance(e, ast.Constant))
+    ok_c = len(lists) == 1 and types == ["nets/vms", "vms"]
+    ctx.record(rule, "TABLE", fc.ref, "check_root: a pool copy does not make the root of a vm ('vms', 'nets/vms') exist", ok_c, {"types": types},
+               "" if ok_c else "check_root no longer excludes vm object types from the pool answer")
+    fref = f"{RSB}.get_root"
+    views = function_views(ctx, fref, names_interesting({"transport", "_check_root", "_get_root", "object_type"}))
+    n, bad = 0, None
+    for v in views:
+        for i, c in v.calls(lambda c: _is_transport_call(c) and call_name(c) == "get_root"):
+            n += 1
+            prem = v.premise(i, 0)
+            vm_atoms = [a for a in norm.atoms_of(prem) if "object_type" in a and "'nets/vms'" in a and "'vms'" in a]
+            if not any(norm.implies(prem, norm.neg(("atom", a))) for a in vm_atoms):
+                bad = bad or v
+    ok = n >= 1 and bad is None
+    ctx.record(rule + "g", "SIBLING", fref, "get_root downloads a root from the pool only for object types other than 'vms' / 'nets/vms' (as check_root answers)", ok, {"download_sites": n},
+               "" if ok else "get_root downloads the pool copy of a vm's images although check_root treats vm roots as local only: checking a state of a running vm "
+               "replaces the disk it is writing to with the pool image")
+
+
 def routing(ctx: Ctx, rule: str) -> None:
     ops = {"list_paths": "list", "compare": "compare", "download": "download", "upload": "upload", "delete": "delete"}
     for name, stem in ops.items():
@@ -493,12 +552,14 @@ def routing(ctx: Ctx, rule: str) -> None:
 def run(ctx: Ctx) -> None:
     ctx.call(scope_filter, "1")
     ctx.call(local_ops, "2")
+    ctx.call(partial_presence, "2u")
     ctx.call(closest_source, "3")
     ctx.call(proximity_order, "4")
     ctx.call(scope_table, "5")
     ctx.call(redownload, "6")
     ctx.call(refuse_without_local, "7")
     ctx.call(root_scope_table, "8")
+    ctx.call(vm_root_local, "8v")
     ctx.call(routing, "9")
     ctx.call(chain_siblings, "10")
     ctx.call(fresh_checksums, "11")
